@@ -4,9 +4,10 @@ CONSTANTS
   MaxTok = 0
   MaxIdx = 2
   AllowAgg = FALSE
-  DevOn = {"EmptyBraceNoFocus", "BraceNoReset", "UnionCover", "AutoBackZero", "ReplaceEndOnly"}
+  DevOn = {"CompositeKeepsNew", "SharedIncompleteType", "EmptyBraceNoFocus", "BraceNoReset", "UnionCover", "AutoBackZero", "ReplaceEndOnly"}
   Salt = 0
   EmitCases = FALSE
+  FormsOn = {"plain"}
   Prune = TRUE
 POSTCONDITION TraceAccepted
 CHECK_DEADLOCK FALSE
